@@ -54,7 +54,7 @@ def gen_history(r, nops=None, profile=None):
     h = []
     nops = nops or r.randint(5, 60)
     profile = profile or r.choice(["mixed", "mixed", "mixed", "memory", "pool", "device", "streams", "noise"])
-    w = {"ctor": 10, "copy": 8, "asg": 10, "swap": 7, "free": 6, "drop": 8, "norefs": 1.5, "mkdev": 5, "malloc": 9,
+    w = {"ctor": 10, "copy": 8, "asg": 10, "swap": 7, "free": 6, "drop": 8, "norefs": 1.5, "mkdev": 3, "malloc": 9,
          "slice": 5, "mkpool": 4, "reserve": 6, "mkker": 2.5, "mkstr": 4, "getstr": 3, "setstr": 3, "getdev": 3, "junk": 1}
     if profile == "memory":
         w.update(malloc=16, slice=12, swap=12, mkker=0.5, mkstr=1)
@@ -73,9 +73,17 @@ def gen_history(r, nops=None, profile=None):
         return "%s%d" % (k, i)
 
     def anyvar(k, want_live=True):
-        # mostly a live variable, sometimes a dead one (rejected as bad-op by both sides)
-        c = sh.lives(k) if (want_live and r.random() < 0.95) else list(range(K))
-        return pick(r, c) if c else r.randrange(K)
+        # mostly a live variable (constructed on demand), sometimes a dead one (rejected as bad-op by both sides)
+        if want_live and r.random() < 0.96:
+            c = sh.lives(k)
+            if not c or (len(c) < 3 and r.random() < 0.3):
+                i = pick(r, sh.deads(k))
+                h.append("ctor " + var(k, i))
+                sh.live[k][i] = True
+                sh.tok[k][i] = None
+                return i
+            return pick(r, c)
+        return r.randrange(K)
 
     def devvar():
         c = sh.inits("d")
@@ -84,10 +92,11 @@ def gen_history(r, nops=None, profile=None):
         return anyvar("d")
 
     # every history starts by making one device so that most operations are meaningful
-    for op in ("ctor d0", "mkdev d0"):
-        h.append(op)
-    sh.live["d"][0] = True
-    sh.tok["d"][0] = sh.fresh()
+    if r.random() < 0.9:
+        for op in ("ctor d0", "mkdev d0"):
+            h.append(op)
+        sh.live["d"][0] = True
+        sh.tok["d"][0] = sh.fresh()
     while len(h) < nops:
         op = r.choices(names, weights)[0]
         if op == "ctor":
